@@ -397,7 +397,7 @@ pub fn run(args: &Args) -> i32 {
     }
     let n = common::workers();
     let seed = args.seed;
-    let (n_small, n_large) = if args.thorough() { (60_000_000u64, 1_000_000u64) } else { (1_500_000u64, 30_000u64) };
+    let (n_small, n_large) = if args.thorough() { (60_000_000u64, 1_000_000u64) } else { (6_000_000u64, 100_000u64) };
     let watch = {
         let rep = rep.clone();
         crate::common::wedge::Watch::start(n, 10, move |_s, idx, small, _c, _d, cpu| {
